@@ -123,4 +123,6 @@ func TestC12(t *testing.T) {
 		}
 	}
 	report(t, r)
+	// repeated evaluation on grouping keys of mixed Go numeric types: the same partition on every run
+	mixedKeysPartition(t, "C12")
 }
